@@ -385,6 +385,12 @@ def run(run: core.Run):
                 axis = [1590.0, 1600.0, 1610.0, 1650.0]
                 pf.append({"osc": [[fa, r]], "centers": [0.3], "widths": [w], "axis": axis, "dt": dt})
                 pf.append({"osc": [[fa, r]], "centers": [0.3], "widths": [w], "axis": axis, "dt": dt, "shifts": [w, -w, 0.5 * w, 2 * w]})
+                # dispersion without shift (the effective position still differs per index), with and without width dispersion
+                pf.append({"osc": [[fa, r]], "centers": [0.3], "widths": [w], "axis": axis, "dt": dt, "dispersion_center": 1620.0,
+                           "center_coeffs": [2 * w, -w]})  # fmt: skip
+                if fa == 1600.0:
+                    pf.append({"osc": [[fa, r]], "centers": [0.3], "widths": [w], "axis": axis, "dt": dt, "dispersion_center": 1620.0,
+                               "center_coeffs": [w], "width_coeffs": [w / 4]})  # fmt: skip
         pf.append({"osc": [[1600.0, -1.0], [1650.0, -3.0]], "centers": [0.3], "widths": [w, 2 * w], "scales": [1.0, 0.5],
                    "axis": [1590.0, 1640.0], "dt": dt})  # fmt: skip
     run.map("pfid", pf)
